@@ -1115,33 +1115,40 @@ mod from_text {
         data: Vec<Vec<serde_json::Value>>,
     }
 
-    fn map_json_primitive(primitive: serde_json::Value) -> Literal {
+    fn map_json_primitive(primitive: serde_json::Value) -> Result<Literal, String> {
         use serde_json::Value::*;
-        match primitive {
+        Ok(match primitive {
             Null => Literal::Null,
             Bool(bool) => Literal::Boolean(bool),
             Number(number) if number.is_i64() => Literal::Integer(number.as_i64().unwrap()),
             Number(number) if number.is_f64() => Literal::Float(number.as_f64().unwrap()),
-            Number(_) => Literal::Null,
+            // an integer above i64::MAX that fits u64: it used to become NULL silently
+            Number(number) => {
+                return Err(format!(
+                    "json: the number {number} does not fit a 64-bit signed integer"
+                ))
+            }
             String(string) => Literal::String(string),
-            Array(_) => Literal::Null,
-            Object(_) => Literal::Null,
-        }
+            // arrays and objects used to become NULL silently
+            Array(_) | Object(_) => {
+                return Err("json: a cell must be a string, a number, a boolean or null".to_string())
+            }
+        })
     }
 
     fn object_to_vec(
         mut row_map: HashMap<String, serde_json::Value>,
         columns: &[String],
-    ) -> Vec<Literal> {
+    ) -> Result<Vec<Literal>, String> {
         columns
             .iter()
             .map(|c| {
                 row_map
                     .remove(c)
                     .map(map_json_primitive)
-                    .unwrap_or(Literal::Null)
+                    .unwrap_or(Ok(Literal::Null))
             })
-            .collect_vec()
+            .try_collect()
     }
 
     pub fn parse_json(text: &str) -> Result<RelationLiteral, String> {
@@ -1167,7 +1174,7 @@ mod from_text {
         let rows = data
             .into_iter()
             .map(|row_map| object_to_vec(row_map, &columns))
-            .collect_vec();
+            .try_collect()?;
         Ok(RelationLiteral { columns, rows })
     }
 
@@ -1179,8 +1186,8 @@ mod from_text {
             columns,
             rows: data
                 .into_iter()
-                .map(|row| row.into_iter().map(map_json_primitive).collect_vec())
-                .collect_vec(),
+                .map(|row| row.into_iter().map(map_json_primitive).try_collect())
+                .try_collect()?,
         })
     }
 }
